@@ -96,6 +96,8 @@ func runC01(p *Prog, r *Result) {
 	checkSeparatorFlagCleared(p, r, "R01i")
 	r.Rule("R01j", "whatever root Print is given, every path from the call that writes it to Print's return passes flushHeredocs: a queued body is not left unwritten", 4)
 	checkPrintFlushesHeredocs(p, r, "R01j")
+	r.Rule("R01k", "the printer sets pending here-documents aside around a nested statement list exactly for the node types whose statements the parser reads with the pending list buried", 6)
+	checkHeredocBuryingAgrees(p, r, "R01k")
 	pkg := si.pkg
 	info := pkg.TypesInfo
 	g := buildRefGraph(p)
@@ -481,6 +483,10 @@ func inDefaultOfRootSwitch(g *FGraph, b *FBlock) bool {
 }
 
 var c01Controls = []Control{
+	{Name: "process-substitution-flushes-outer-heredocs", Rule: "R01k", WantKey: "wordPart#statements of ProcSubst", File: "syntax/printer.go",
+		Mutate: ctlReplaceAnywhere("\t\t// See the same in cmdSubst.\n\t\thdocs := p.pendingHdocs\n\t\tp.pendingHdocs = nil\n", "\t\thdocs := p.pendingHdocs[:0:0]\n")},
+	{Name: "subshell-buries-pending-heredocs", Rule: "R01k", WantKey: "command#statements of Subshell", File: "syntax/parser.go",
+		Mutate: ctlReplaceAnywhere("\t// such as in \"cat <<EOF | (\\nbody\\nEOF\\n tr a-z A-Z)\".\n\tp.buriedHdocs = old.buriedHdocs\n", "\t// such as in \"cat <<EOF | (\\nbody\\nEOF\\n tr a-z A-Z)\".\n")},
 	{Name: "closing-parenthesis-keeps-the-inner-separator", Rule: "R01i", WantKey: "wordPart#nested statement list 1", File: "syntax/printer.go",
 		Mutate: ctlReplaceAnywhere("\t// Any separator written within the parentheses, like the & in \"(foo &)\",\n\t// does not stand in for the one before what follows them.\n\tp.wroteSemi = false\n", "")},
 	{Name: "here-documents-flushed-for-files-and-statements-only", Rule: "R01j", WantKey: "Print#after command", File: "syntax/printer.go",
@@ -499,7 +505,7 @@ var c01Controls = []Control{
 	{Name: "function-name-written-raw", Rule: "R01e", WantKey: "spacedString, which writes it raw", File: "syntax/printer.go",
 		Mutate: ctlReplaceAnywhere("\tp.spacePad(pos)\n\tp.writeLit(s)\n", "\tp.spacePad(pos)\n\tp.w.WriteString(s)\n")},
 	{Name: "pending-hdocs-truncated-under-alias", Rule: "R01d", WantKey: "flushHeredocs#p.pendingHdocs truncated", File: "syntax/printer.go",
-		Mutate: ctlReplaceAnywhere("p.pendingHdocs = nil\n", "p.pendingHdocs = p.pendingHdocs[:0]\n")},
+		Mutate: ctlReplaceAnywhere("\t// heredocs of its own, which must not overwrite the ones being printed.\n\tp.pendingHdocs = nil\n", "\t// heredocs of its own, which must not overwrite the ones being printed.\n\tp.pendingHdocs = p.pendingHdocs[:0]\n")},
 	{Name: "wordPart-drop-ExtGlob-case", Rule: "R01a", WantKey: "wordPart#switch WordPart/ExtGlob", File: "syntax/printer.go",
 		Mutate: ctlReplace("Printer.wordPart", "case *ExtGlob:\n\t\tp.w.WriteString(wp.Op.String())\n\t\tp.writeLit(wp.Pattern.Value)\n\t\tp.w.WriteByte(')')", "", 0)},
 	{Name: "arithm-drop-FlagsArithm-case", Rule: "R01a", WantKey: "arithmExprRecurse#switch ArithmExpr/FlagsArithm", File: "syntax/printer.go",
